@@ -52,4 +52,7 @@ theorem cachingFuncCalls : Facts.cachingFuncCalls = Spec.cachingFuncCalls := by 
 theorem readMappingShape : Facts.readMappingShape = Spec.readMappingShape := by rfl
 
 theorem readerNotifierShape : Facts.readerNotifierShape = Spec.readerNotifierShape := by rfl
+theorem retryableShape : Facts.retryableShape = Spec.retryableShape := by rfl
+theorem writeErrorShape : Facts.writeErrorShape = Spec.writeErrorShape := by rfl
+theorem newRouterShape : Facts.newRouterShape = Spec.newRouterShape := by rfl
 end Pins
